@@ -9,6 +9,7 @@ import (
 	"os"
 	"reflect"
 	"sort"
+	"strconv"
 	"strings"
 	"testing"
 
@@ -229,7 +230,7 @@ func checkCase(c *Case, count bool) error {
 			if canon(res.EscapedPath()) != canon(adjust(req.URL.EscapedPath())) {
 				return fmt.Errorf("%sLocation %q resolves to path %q, want %q", desc, out.Location, res.EscapedPath(), adjust(req.URL.EscapedPath()))
 			}
-			if res.RawQuery != req.URL.RawQuery || res.Fragment != "" {
+			if rawHigh(res.RawQuery) != rawHigh(req.URL.RawQuery) || res.Fragment != "" {
 				return fmt.Errorf("%sLocation %q resolves to query %q fragment %q, want query %q", desc, out.Location, res.RawQuery, res.Fragment, req.URL.RawQuery)
 			}
 			if out.Pattern != "" || len(out.Params) != 0 {
@@ -308,7 +309,28 @@ func classify(c *Case, pats []string, q Req, rp string, want ref.Result, expect 
 }
 
 var reserved = []string{"a:b", "https:evil.com", "a?b", "a#b", "a%b", "a b", "é", "a%2Fb", "a;b", "a=b&c", "a+b", "%41", "a.b", "a%2F", "%2Fa", "%2E%2E", "%2e", "a%2F%2Fb"}
-var queries = []string{"", "", "?q=1", "?a=%2F&b=c%20d", "?", "?x=y%23z&u=https://h/p?q"}
+var queries = []string{"", "", "?q=1", "?a=%2F&b=c%20d", "?", "?x=y%23z&u=https://h/p?q",
+	// bytes beyond ASCII sent as they are: well-formed UTF-8, Latin-1, a lone continuation byte, a truncated sequence. A header
+	// value cannot carry them raw, so the Location may percent-encode each BYTE; the query it resolves to is the same bytes.
+	"?u=h\xc3\xa9llo&x=1", "?name=caf\xe9&x=1", "?k=\xa0", "?q=\xe2\x82&r=2"}
+
+// rawHigh decodes the percent-escapes of bytes >= 0x80 (and only those), so that a query and its header-safe spelling compare
+// equal byte for byte while every other escape still has to be kept as it was.
+func rawHigh(q string) string {
+	var sb strings.Builder
+	for i := 0; i < len(q); i++ {
+		if q[i] == '%' && i+2 < len(q) {
+			if v, err := strconv.ParseUint(q[i+1:i+3], 16, 8); err == nil && v >= 0x80 {
+				sb.WriteByte(byte(v))
+				i += 2
+				continue
+			}
+		}
+		sb.WriteByte(q[i])
+	}
+	return sb.String()
+}
+
 var methods = []string{"GET", "GET", "GET", "POST", "CONNECT", "FOO", "HEAD"}
 
 func escapeSeg(s string) string {
